@@ -23,7 +23,9 @@ def convert_pit(prog, seed, fold_bn=False, discrete_cost=False, full_cost=False,
     if train_mode:
         model.train()
     xs = pitgen.example_inputs(prog, 1, seed)
-    kw = dict(input_example=pitgen.input_example_arg(prog, xs), fold_bn=fold_bn,
+    from vf import neutral
+    ex = pitgen.example_inputs(prog, neutral.example_batch(seed), seed)
+    kw = dict(input_example=pitgen.input_example_arg(prog, ex), fold_bn=fold_bn,
               discrete_cost=discrete_cost, full_cost=full_cost,
               exclude_names=tuple(prog.get('excluded', ())), exclude_types=tuple(exclude_types),
               autoconvert_layers=autoconvert)
